@@ -173,6 +173,9 @@ func (t *Translator) compileFunc(f *Func, mode Mode) string {
 	}
 	body := pre + c.stmts(f.decl.Body.List, fallOff, top)
 	c.assertClean(f.decl.End())
+	if mode == ModeOk && f.trivialOk {
+		body = "true" // no division, index, shift, panic, oracle or fuel anywhere
+	}
 
 	var sig strings.Builder
 	for _, p := range params {
@@ -211,6 +214,7 @@ func (t *Translator) Translate() (err error) {
 	for _, f := range t.funcs { // topological order: callees first
 		t.numberOracles(f)
 		f.valText = t.compileFunc(f, ModeVal)
+		f.trivialOk = !f.fuelled && len(f.sideconds) == 0
 		f.okText = t.compileFunc(f, ModeOk)
 		sort.SliceStable(f.sideconds, func(i, j int) bool { return f.sideconds[i].Pos < f.sideconds[j].Pos })
 	}
@@ -235,14 +239,22 @@ func (t *Translator) CoqText(module string) string {
 		b.WriteString("nil).\n")
 	}
 	for _, f := range t.funcs {
-		fmt.Fprintf(&b, "\n(* Go: %s at %s *)\n(* source SHA-256: %s *)\n", f.GoName, t.posStr(f.decl.Pos()), f.SrcSHA)
+		fmt.Fprintf(&b, "\n(* Go: %s at %s *)\n(* source SHA-256: %s *)\n", coqComment(f.GoName), t.posStr(f.decl.Pos()), f.SrcSHA)
 		b.WriteString(f.valText)
 		b.WriteString("\n\n")
-		fmt.Fprintf(&b, "(* %s: true iff %s does not panic on these arguments *)\n", f.OkName, f.GoName)
+		fmt.Fprintf(&b, "(* %s: true iff %s does not panic on these arguments *)\n", f.OkName, coqComment(f.GoName))
 		b.WriteString(f.okText)
 		b.WriteString("\n")
 	}
 	return b.String()
+}
+
+// coqComment makes a string safe inside a Coq comment (comments nest, and
+// string quotes inside comments must balance).
+func coqComment(s string) string {
+	s = strings.ReplaceAll(s, "(*", "( *")
+	s = strings.ReplaceAll(s, "*)", "* )")
+	return strings.ReplaceAll(s, "\"", "'")
 }
 
 // ---------------------------------------------------------------- manifest
